@@ -47,6 +47,14 @@ type cl struct {
 	buf []byte
 }
 
+func wire(args ...string) []byte {
+	argv := make([][]byte, len(args))
+	for i, a := range args {
+		argv[i] = []byte(a)
+	}
+	return respcodec.EncodeCommand(argv)
+}
+
 func readValue(c *cl, d time.Duration) (respcodec.Value, error) {
 	deadline := time.Now().Add(d)
 	tmp := make([]byte, 4096)
@@ -81,6 +89,66 @@ func main() {
 	r := rand.New(rand.NewSource(*seed))
 	enc := json.NewEncoder(os.Stdout)
 	done, anomalies := 0, 0
+	// duel: ONE connection subscribed to two channels, one publisher per channel publishing at the same time. Every push must
+	// arrive as one intact frame (the channel locks are per channel: nothing but the connection itself orders two pushes to it),
+	// and the messages of each channel in the order they were published.
+	for duel := 0; duel < 3 && anomalies == 0; duel++ {
+		ctx, cancel := context.WithCancel(context.Background())
+		mgr := server.NewManager(&config.Config{Databases: 1})
+		dial := func() *cl {
+			a, b := net.Pipe()
+			go mgr.Handle(ctx, b)
+			return &cl{c: a}
+		}
+		sub := dial()
+		sub.c.Write(wire("SUBSCRIBE", "duel-a", "duel-b"))
+		if v, err := readValue(sub, 5*time.Second); err != nil || v.Kind != '*' {
+			anomalies++
+			enc.Encode(anomaly{"malformed-reply", -1 - duel, fmt.Sprintf("duel: confirmation of SUBSCRIBE duel-a duel-b missing or malformed (%v)", err)})
+			cancel()
+			break
+		}
+		const nmsg = 1500
+		var wg sync.WaitGroup
+		for pi, ch := range []string{"duel-a", "duel-b"} {
+			wg.Add(1)
+			go func(pi int, ch string) {
+				defer wg.Done()
+				p := dial()
+				for i := 0; i < nmsg; i++ {
+					p.c.Write(wire("PUBLISH", ch, fmt.Sprintf("%s-%d-%s", ch, i, string(make([]byte, 40+pi*300)))))
+					if _, err := readValue(p, 20*time.Second); err != nil {
+						return
+					}
+				}
+			}(pi, ch)
+		}
+		next := map[string]int{"duel-a": 0, "duel-b": 0}
+		for got := 0; got < 2*nmsg; got++ {
+			v, err := readValue(sub, 20*time.Second)
+			if err != nil {
+				anomalies++
+				enc.Encode(anomaly{"malformed-push", -1 - duel, fmt.Sprintf("duel: after %d pushes the subscriber of two channels (one publisher each, publishing at the same time) reads %v", got, err)})
+				break
+			}
+			if v.Kind != '*' || len(v.Elems) != 3 || string(v.Elems[0].Str) != "message" {
+				anomalies++
+				enc.Encode(anomaly{"malformed-push", -1 - duel, fmt.Sprintf("duel: push %d is not a message frame: kind %c with %d elements", got, v.Kind, len(v.Elems))})
+				break
+			}
+			ch := string(v.Elems[1].Str)
+			want := fmt.Sprintf("%s-%d-", ch, next[ch])
+			if _, ok := next[ch]; !ok || len(v.Elems[2].Str) < len(want) || string(v.Elems[2].Str[:len(want)]) != want {
+				anomalies++
+				enc.Encode(anomaly{"wrong-push", -1 - duel, fmt.Sprintf("duel: push %d on channel %q carries %.30q, expected message %d of that channel", got, ch, v.Elems[2].Str, next[ch])})
+				break
+			}
+			next[ch]++
+		}
+		cancel()
+		sub.c.Close()
+		wg.Wait()
+	}
 	for round := 0; round < *rounds && anomalies == 0; round++ {
 		ctx, cancel := context.WithCancel(context.Background())
 		mgr := server.NewManager(&config.Config{Databases: 1})
